@@ -394,6 +394,12 @@ pub struct MutexGuard<'a, T> {
     addr: usize,
 }
 
+impl<T: Default> Default for Mutex<T> {
+    fn default() -> Self {
+        Self::new(T::default())
+    }
+}
+
 impl<T> Mutex<T> {
     pub fn new(t: T) -> Self {
         Self {
